@@ -271,6 +271,51 @@ def rg_tail_missing(got, exp, dec):
     return j
 
 
+def rg_big_part(chk, rep):
+    """Inputs beyond the first 64 KiB: a long run of pure ASCII lines, then lines with encoded characters.  rg under the
+    label (memory map and reader) must find exactly the matching lines of the UTF-8 transcoding (computed here with
+    Python's codecs; the --encoding none run on the transcoded file checks that reference through rg itself)."""
+    rg = vlib.build_rg()
+    filler = "".join("x%05d plain ascii filler line\n" % i for i in range(2400))      # ~ 74 KB, no m
+    tail = "m caf\u00e9\nnothing\n\u00e9t\u00e9 m\nm\n"
+    tail_sj = "m \u65e5\u672c\nnothing\n\u30ab\u30ca m\nm\n"
+    cases = [("latin1", "cp1252", filler + tail, b""), ("shift_jis", "shift_jis", filler + tail_sj, b""),
+             ("utf-16le", "utf-16-le", filler + tail, b""), ("auto", "utf-16-le", filler + tail_sj, b"\xff\xfe"),
+             ("utf-8", "utf-8", filler + tail_sj, b""), ("latin1", "cp1252", "m\n" + filler + tail, b"")]
+    tmp = tempfile.mkdtemp(prefix="verif-c17b-")
+    try:
+        for k, (label, codec, text, bom) in enumerate(cases):
+            enc = bom + text.encode(codec)
+            dec = text.encode("utf8")
+            with open(os.path.join(tmp, "e%d" % k), "wb") as f:
+                f.write(enc)
+            with open(os.path.join(tmp, "d%d" % k), "wb") as f:
+                f.write(dec)
+            exp, off = [], 0
+            for n, line in enumerate(dec.split(b"\n")[:-1], 1):
+                if b"m" in line:
+                    exp.append((n, off, list(line + b"\n")))
+                off += len(line) + 1
+            ref = rg_json(rg, ["--encoding", "none", "--mmap"], ["d%d" % k], tmp).get("d%d" % k, [])
+            if [(a, o, list(x)) for a, o, x in ref] != exp:
+                raise vlib.ToolError("big-input oracle: rg --encoding none on the transcoding disagrees with the expected lines")
+            for mm in ("--mmap", "--no-mmap"):
+                got = rg_json(rg, enc_args(label) + [mm], ["e%d" % k], tmp).get("e%d" % k, [])
+                chk.evaluations += 1
+                if [(a, o, list(x)) for a, o, x in got] == exp:
+                    chk.validated += 1
+                    chk.nontrivial_case("big:%d:%s" % (k, mm))
+                else:
+                    rep.report({"clause": "label" if not bom else "bom_removed", "encoding": label, "bom": "le" if bom else "none",
+                                "strategy": "rg-mmap" if mm == "--mmap" else "rg", "chunking": "max", "level": "rg", "effective": codec,
+                                "malformed": False, "eof_flush": False, "missing": 0, "big": True},
+                               {"level": "rg", "why": "rg output on an input larger than 64 KiB differs from the search of its UTF-8 transcoding",
+                                "label": label, "mmap": mm, "input_len": len(enc), "expected": [(a, o) for a, o, x in exp],
+                                "observed": [(a, o) for a, o, x in got][:10]})
+    finally:
+        shutil.rmtree(tmp, ignore_errors=True)
+
+
 def rg_level(chk, rep, recs, limit):
     """rg --encoding <label> / BOM sniffing / --encoding none on the encoded file, with and without mmap,
     against the prediction; rg on the pre-decoded file (no transcoding) as the same-results reference."""
@@ -482,6 +527,7 @@ def main(tier):
     ]
     tables = write_tables()
     try:
+        rg_big_part(chk, rep)
         coverage_run(chk, tables)
         if tier == "quick":
             explore(chk, rep, "C17_quick", tables, timeout=600, rg_limit=0)
